@@ -1340,6 +1340,10 @@ package mcp
 //@   track handleNotify as announce
 //@   snapshot announced after call handleNotify
 //@   ensures @legacy-handshake-starts-keep-alive-iff-configured result.1 == nil && calls(announce) == 1 ==> calls(keepalive) <= 1 && (calls(keepalive) == 1 <==> at(announced, c.opts.KeepAlive) > 0)
+// The legacy handshake is completed (notifications/initialized sent, session handed back) only with a version this
+// SDK supports - whatever the server answered, also when it echoed a version the caller asked for.
+//@   track slices.Contains as known
+//@   assert at call handleNotify: @the-handshake-is-completed-only-with-a-version-the-client-supports calls(known) == 1 && callResult(known, 1, 0) && callArg(known, 1, 0) == supportedProtocolVersions && callArg(known, 1, 1) == local(res).ProtocolVersion && local(cs).state.InitializeResult == local(res)
 //@   assert at call capabilities: @requested-version-is-never-empty $1 != ""
 //@   assert at call capabilities: @explicit-legacy-version-is-used-as-given opts != nil && wanted != "" && wanted < protocolVersion20260728 ==> $1 == wanted
 //@   assert at call capabilities: @default-falls-back-to-the-last-legacy-version (opts == nil || wanted == "") ==> $1 == protocolVersion20251125
@@ -1571,6 +1575,13 @@ package mcp
 //@   assert at call CompareAndSwap: @claims-the-false-to-true-transition !$1 && $2
 //@   loop 1: invariant @connection-still-there ss.conn == old(ss.conn) && calls(closeConn) == 0
 
+// A client connection is told about the session state (interface; the only implementation in this module, the
+// streamable client, records the initialize result and may start its standalone stream): it writes its own fields
+// and library state, never the session's state or the result object it is shown. Assumed for user-supplied transports.
+//@ func (clientConnection).sessionUpdated
+//@   abstract
+//@   modifies extern
+//@   modifies fields(streamableClientConn.initializedResult)
 // Client.discover (C07): the version the client settles on after server/discover is one the server listed, at least
 // 2026-07-28, and it is the requested version whenever the server lists that one; otherwise the call fails with the
 // unsupported-protocol-version error (so Connect falls back to initialize).
